@@ -210,9 +210,9 @@ def _oracle_job(pp, job):
     return n, bad
 
 
-def run_oracle(ctx, stream, jobs):
+def run_oracle(ctx, stream, jobs, job_fn=None):
     corr_parse._TIMEOUTS.value = 0
-    res = common.pmap(oracle_job, jobs)
+    res = common.pmap(job_fn or oracle_job, jobs)
     n = sum(r[0] for r in res)
     bad = [m for r in res for m in r[1]]
     ctx.count_cases(stream, n, distinct_keys=[json.dumps([j["prog"], s]) for j in jobs for s in j["inputs"]],
@@ -225,8 +225,62 @@ def run_oracle(ctx, stream, jobs):
         if (m["clause"], m["sig"]) in seen or len([k for k in seen if k[1] is None]) >= 3:
             continue
         seen.add((m["clause"], m["sig"]))
-        ctx.fail_input(m["clause"], {k: m[k] for k in ("prog", "root", "input", "clause")}, m["expected"], m["actual"],
+        ctx.fail_input(m["clause"], {k: m[k] for k in ("prog", "root", "input", "clause", "mode", "others") if k in m}, m["expected"], m["actual"],
                        theorem="C08 statement (oracle)", signature=m["sig"], how="harness.props.c08.oracle_job")
+
+
+def prior_job(job):
+    """every entry point starts from scratch (it resets the packrat cache AND the left-recursion memo): what it returns
+    for s does not depend on which other strings were parsed - successfully or not - with the same objects before"""
+    pp = common.import_pyparsing()
+    n, bad = 0, []
+
+    def views(root, s):
+        out = []
+        for name, f in (("scan", lambda: [(t.as_list(), a, b) for t, a, b in root.scan_string(s)]),
+                        ("search", lambda: root.search_string(s).as_list()),
+                        ("transform", lambda: root.transform_string(s)),
+                        ("split", lambda: list(root.split(s))),
+                        ("parse", lambda: root.parse_string(s).as_list())):
+            out.append((name, _res(pp, f)))
+        return out
+
+    for mode in [("none",), ("packrat", 128), ("lr", None)]:
+        for s in job["inputs"][:3]:
+            corr_parse.set_mode(pp, mode)
+            try:
+                def both():
+                    root = gram.prepare(gram.build(pp, job["prog"]), job["root"])
+                    if corr_parse.nullable_rep(pp, root):
+                        return None
+                    fresh = views(root, s)
+                    root2 = gram.prepare(gram.build(pp, job["prog"]), job["root"])
+                    for other in job["inputs"]:
+                        if other != s:
+                            _res(pp, lambda: root2.parse_string(other, parse_all=True))
+                            _res(pp, lambda: root2.matches(other))
+                    res = []
+                    for (name, a) in fresh:
+                        b = dict(views(root2, s))[name] if False else None
+                    after = views(root2, s)
+                    return fresh, after
+                r = common.with_alarm(corr_parse.CASE_TIMEOUT * 4, both)
+            except common.CaseTimeout:
+                r = None
+            except Exception:  # noqa
+                r = None
+            finally:
+                pp.ParserElement.disable_memoization()
+            if r is None:
+                continue
+            fresh, after = r
+            n += len(fresh)
+            for (name, a), (_, b) in zip(fresh, after):
+                if a != b:
+                    bad.append({"prog": job["prog"], "root": job["root"], "input": s, "clause": f"{name}(s) is independent of earlier calls",
+                                "expected": a, "actual": b, "sig": None, "mode": list(mode), "others": job["inputs"]})
+                    break
+    return n, bad
 
 
 WITNESS_F8 = dict(prog=[["w", "Word", "ab"], ["h", "Literal", "#"], ["root", "OneOrMore", "w"], ["_", "ignore", "root", "h"]],
@@ -261,11 +315,20 @@ def run(ctx):
     oj = [dict(prog=j["prog"], root=j["root"], inputs=j["inputs"], default_ws=j.get("default_ws"))
           for j in (jobs[: ctx.budget(1500, 12000) * mult] + [j for j in jobs if j.get("default_ws")])]
     run_oracle(ctx, "oracle:cross-entry", oj)
+    # entry points are independent of earlier calls, in every memoization mode
+    pj = []
+    for i in range(ctx.budget(500, 5000) * mult):
+        rng = random.Random(f"C08-{ctx.seed}-prior-{i}")
+        prog, root, inputs = gen.gen_case(rng, gen.Cfg(forwards=rng.choice([1, 2]), ignore=0.0, actions=0.0), 5)
+        pj.append(dict(prog=prog, root=root, inputs=inputs))
+    run_oracle(ctx, "oracle:independent-of-earlier-calls", pj, job_fn=prior_job)
 
 
 def replay(data):
     if data.get("replay_kind") == "failing-input":
         c = data["case"]
+        if c.get("others") is not None:
+            return bool(prior_job(dict(prog=c["prog"], root=c["root"], inputs=[c["input"]] + [o for o in c["others"] if o != c["input"]]))[1])
         return any(m["clause"] == c["clause"] for m in oracle_job(dict(prog=c["prog"], root=c["root"], inputs=[c["input"]]))[1])
     ctx = common.Ctx("C08", "quick", data.get("seed", 0))
     run(ctx)
